@@ -6,10 +6,13 @@
 (* TLC strings are atomic, so identifiers, templates and file names are    *)
 (* sequences of *characters*, each character a one-letter string ("a",     *)
 (* "B", "1", "_", "-", ...) or a named token for a non-ASCII rune ("zh" =  *)
-(* U+4E2D, "di" = U+0131 dotless i, "ta" = U+0250 turned a); the Go driver *)
-(* only maps tokens to runes and concatenates.  Casing is given by the     *)
-(* explicit table Letters (lower, upper) - characters outside the table    *)
-(* have no case.                                                           *)
+(* U+4E2D, "di" = U+0131 dotless i, "ta" = U+0250 turned a, "ls" = U+017F  *)
+(* long s, "Id" = U+0130 dotted capital I, "ax" = U+2C65 a with stroke);   *)
+(* the Go driver only maps tokens to runes and concatenates.  Casing is    *)
+(* given by the explicit table Letters (lower, upper) - characters outside *)
+(* the table have no case and are no spelling of any letter of the two     *)
+(* template words: "de<ls>igner" is not the word 'designer', whatever a    *)
+(* Unicode case mapping makes of U+017F.                                   *)
 (*                                                                         *)
 (* The state is the identifier under construction (one character is added  *)
 (* per step, so the reachable states are exactly the identifiers up to     *)
@@ -38,6 +41,8 @@ UpSeq(s)  == [i \in 1..Len(s) |-> Up(s[i])]
 LowSeq(s) == [i \in 1..Len(s) |-> Low(s[i])]
 TitleSeq(s) == IF s = <<>> THEN <<>> ELSE <<Up(s[1])>> \o LowSeq(Tail(s))
 
+IsDigit(c) == c \in {"0", "1", "2", "3", "4", "5", "6", "7", "8", "9"}
+
 (* ------------------------------------------------------------ identifier -> words *)
 
 \* "split at underscores and before upper-case letters": a word starts at every character that
@@ -50,6 +55,10 @@ EndOf(s, i) == CHOOSE j \in i..Len(s) :
                  /\ j = Len(s) \/ Breaks(s, j + 1)
 Words(s) == LET ss == SetToSortSeq(Starts(s), <)
             IN [n \in 1..Len(ss) |-> SubSeq(s, ss[n], EndOf(s, ss[n]))]
+
+\* a word that starts with a digit and goes on with letters ("2fa", "1st"): its first character has no
+\* case, so its title casing is the word itself (used by the generators to report what they covered)
+DigitLed(w) == Len(w) >= 2 /\ IsDigit(w[1]) /\ \E k \in 2..Len(w) : IsLower(w[k])
 
 (* ------------------------------------------------------------ template -> style *)
 
